@@ -88,6 +88,12 @@ class Scope(ast.NodeVisitor):
                 loc.add(n.id)
             if isinstance(n, (ast.FunctionDef, ast.ClassDef)) and n is not node:
                 loc.add(n.name)
+        # a memoising decorator keeps results of earlier calls in process-wide state: later calls (and other threads) are answered from history
+        for dec in node.decorator_list:
+            d_ = dec.func if isinstance(dec, ast.Call) else dec
+            nm_ = d_.attr if isinstance(d_, ast.Attribute) else (d_.id if isinstance(d_, ast.Name) else "")
+            if nm_ in ("lru_cache", "cache", "cached_property", "memoize", "memoized", "memo"):
+                self.sites.append(("memo-decorator", self.q(), node.lineno, ast.unparse(dec)[:100]))
         # locals that merely ALIAS a module-level mutable object (`buf = _scratch`): a store through them is a store into process-wide state
         al = set()
         for n in ast.walk(node):
@@ -339,6 +345,9 @@ def run_frame(rep, tier):
                 ok = (rel, q, "closure-state") in AUDITED or q.split(".")[0].startswith("deprecated")   # registration-time shims of the pre-1.2 API
                 why = ("an inner function mutates an object held in a closure cell of its enclosing function: state shared by every call (and every thread) of the "
                        "returned function - results can depend on earlier or concurrent calls")
+            elif kind == "memo-decorator":
+                ok = (rel, q, kind) in AUDITED
+                why = "a memoising decorator: results of earlier calls are kept in process-wide state and answer later calls"
             elif kind in ("global-stmt", "nonlocal-stmt"):
                 ok = False
                 why = "global/nonlocal statement (hidden mutable state)"
